@@ -113,6 +113,16 @@ def contributions(fn: ast.FunctionDef) -> tuple[set, list[str]]:
                     value_contrib(s.value.args[0], iters, conds, True)
                 else:
                     odd.append(ast.unparse(s))
+            elif isinstance(s, ast.For) and isinstance(s.iter, (ast.Tuple, ast.List)) and isinstance(s.target, ast.Name):
+                # for x in (a, *bs): one contribution per listed element, one iterated contribution per starred collection
+                for e in s.iter.elts:
+                    if isinstance(e, ast.Starred):
+                        walk(s.body, iters + [(s.target, e.value)], conds)
+                    else:
+                        import copy as _copy
+
+                        body = [norm.substitute(_copy.deepcopy(b), {s.target.id: e}, None, 1) for b in s.body]
+                        walk(body, iters, conds)
             elif isinstance(s, ast.For):
                 walk(s.body, iters + [(s.target, s.iter)], conds)
                 if s.orelse or any(isinstance(x, (ast.Break,)) for x in ast.walk(s)):
@@ -251,11 +261,16 @@ def drop_registrations(ctx: Ctx, rule: str) -> None:
         regs = [c for c in ast.walk(f.node) if isinstance(c, ast.Call) and call_name(c) == "register"]
         ok = len(regs) == 1 and ast.unparse(_ren(regs[0].func.value, ren)) == reg and [ast.unparse(_ren(a, ren)) for a in regs[0].args] == args and not regs[0].keywords
         if ok and guard:
-            body = [s for s in f.node.body if not (isinstance(s, ast.Expr) and isinstance(s.value, ast.Constant))]
-            g = body[0] if body else None
-            ok = (isinstance(g, ast.If) and not g.orelse and len(g.body) == 1 and isinstance(g.body[0], ast.Raise)
-                  and norm.equivalent(norm.formula(_ren(g.test, ren)), norm.formula(ast.parse(guard, mode="eval").body))
-                  and isinstance(body[-1], ast.Expr) and body[-1].value is regs[0] and len(body) == 2)
+            # as a table: not a direct neighbour -> ValueError and nothing registered; else exactly the registration
+            from .. import semtab
+
+            got = semtab.function_table(f.node, rename=ren)
+            want = semtab.reference_table(f"""
+                if {guard}:
+                    raise ValueError("x")
+                {reg}.register({', '.join(args)})
+            """)
+            ok = semtab.mismatch(got, want) is None
         if ok and not guard:
             # the registration is the last effect before returning the picked node
             body = f.node.body
